@@ -86,6 +86,20 @@ def respell(rng, s):
     return ''.join(ch.lower() if rng.random() < 0.5 else ch.upper() for ch in s)
 
 
+def near_miss(rng, valid):
+    """a string that is NOT a name of the file although it is empty, blank, or made of valid names and white space:
+    '', ' ', tab, 'NAME ', ' NAME', 'NAME1 NAME2', 'NA ME', 'NAME,NAME2' ... (random case)"""
+    ws = rng.choice([' ', '\t', '  ', ' \t', '\n'])
+    forms = ['', ws]
+    if valid:
+        a = rng.choice(valid)
+        b = rng.choice(valid)
+        h = max(1, len(a) // 2)
+        forms += [a + ws, ws + a, ws + a + ws, a + ' ' + b, a + '\t' + b, a + ',' + b, a[:h] + ' ' + a[h:], a + ' ' + a,
+                  a + ' ', ' ' + a]
+    return respell(rng, rng.choice(forms))
+
+
 def fresh(rng, used, lo=2, hi=9):
     while True:
         s = ident(rng, lo, hi)
@@ -392,6 +406,8 @@ def gen_calls(rng, fi, n):
         t = rng.random()
         if ghosts and t < 0.1:                      # a name the previously loaded file defined, this one does not
             return respell(rng, rng.choice(ghosts)), None, 'unknown-group'
+        if t > 0.95:                                # empty / blank / a valid name with white space / two names in one string
+            return near_miss(rng, names), None, 'blank-group'
         if t < (0.14 if ghosts else 0.08):
             while True:
                 u = ident(rng)
@@ -407,7 +423,8 @@ def gen_calls(rng, fi, n):
         t = rng.random()
         if not labs:
             k = rng.choice([0, 1, 2])
-            return [respell(rng, ident(rng)) for _ in range(k)], ('empty' if k == 0 else 'unknown-label')
+            return [near_miss(rng, []) if rng.random() < 0.3 else respell(rng, ident(rng)) for _ in range(k)], \
+                ('empty' if k == 0 else 'unknown-label')
         if t < 0.08:
             sel = []
         elif t < 0.25:
@@ -424,7 +441,10 @@ def gen_calls(rng, fi, n):
         sel = [respell(rng, l) for l in sel]
         if allow_bad:
             t = rng.random()
-            if t < 0.1:
+            if t > 0.93:                            # not a label: '', blanks, 'LABEL ', 'LABEL1 LABEL2', ...
+                sel.insert(rng.randint(0, len(sel)), near_miss(rng, labs))
+                tag = 'blank-label'
+            elif t < 0.1:
                 old_labs = [l for l in ghost_labels.get(cur[0], []) if l not in d]
                 while True:
                     u = rng.choice(old_labs) if old_labs and rng.random() < 0.6 else ident(rng)
